@@ -32,7 +32,12 @@ fn main() {
         }
         Some("digest") => {
             let ty: u64 = args[2].parse().unwrap();
-            let calls = run::parse_calls(&args[3]);
+            let ops = if let Some(p) = args[3].strip_prefix('@') {
+                std::fs::read_to_string(p).unwrap()
+            } else {
+                args[3].clone()
+            };
+            let calls = run::parse_calls(&ops);
             println!("{:?}", sink::vec_build(ty, &calls).map(|b| util::fnv64(&b)));
         }
         _ => {
